@@ -1,6 +1,7 @@
 import Cjet.Lemmas.DaemonC07Own
 import Cjet.Lemmas.Alloc
 import Cjet.Props.Accept
+import Cjet.Props.Startup
 /-!
 # C07 — all memory, descriptors and timers are reclaimed
 
@@ -407,5 +408,17 @@ theorem accept_no_leak_of_peer_or_bs : type_of% @Cjet.Props.Accept.no_leak_of_pe
 theorem accept_init_failure_releases_both : type_of% @Cjet.Props.Accept.init_failure_releases_both := @Cjet.Props.Accept.init_failure_releases_both
 theorem accept_start_server_unwinds : type_of% @Cjet.Props.Accept.start_server_unwinds := @Cjet.Props.Accept.start_server_unwinds
 theorem accept_stop_server_closes_listener : type_of% @Cjet.Props.Accept.stop_server_closes_listener := @Cjet.Props.Accept.stop_server_closes_listener
+
+/-! ### start-up and shut-down of run_io (linux_io.c): whatever step fails, every listener descriptor is closed once and after its removal from the loop; connections accepted meanwhile are released (code as repaired, F66) -/
+
+theorem startup_releases_all_listeners : type_of% @Cjet.Props.Startup.startup_releases_all_listeners := @Cjet.Props.Startup.startup_releases_all_listeners
+theorem startup_failure_releases_all : type_of% @Cjet.Props.Startup.startup_failure_releases_all := @Cjet.Props.Startup.startup_failure_releases_all
+theorem startup_peer_leak_before_fix : type_of% @Cjet.Props.Startup.startup_failure_releases_all_counterexample := @Cjet.Props.Startup.startup_failure_releases_all_counterexample
+theorem startup_remove_before_close : type_of% @Cjet.Props.Startup.remove_before_close := @Cjet.Props.Startup.remove_before_close
+theorem startup_no_use_after_close : type_of% @Cjet.Props.Startup.no_use_after_close := @Cjet.Props.Startup.no_use_after_close
+theorem startup_success_owns_exactly : type_of% @Cjet.Props.Startup.startup_success_owns_exactly := @Cjet.Props.Startup.startup_success_owns_exactly
+theorem shutdown_releases_all : type_of% @Cjet.Props.Startup.shutdown_releases_all := @Cjet.Props.Startup.shutdown_releases_all
+theorem shutdown_order : type_of% @Cjet.Props.Startup.shutdown_order := @Cjet.Props.Startup.shutdown_order
+theorem startup_error_reported : type_of% @Cjet.Props.Startup.error_reported := @Cjet.Props.Startup.error_reported
 
 end Cjet.Props.C07
